@@ -18,6 +18,15 @@ from . import common
 from .c01 import render_cond, balanced, normalise
 from .c04 import render_file, pstr
 
+# coqc (the vm_compute cross-check of the extraction) overflows the default 8 MB stack on the largest
+# configurations; child processes inherit this limit
+try:
+    import resource
+    _soft, _hard = resource.getrlimit(resource.RLIMIT_STACK)
+    resource.setrlimit(resource.RLIMIT_STACK, (_hard, _hard))
+except Exception:  # noqa
+    pass
+
 DIRS = [["src"], ["inc1"], ["inc2"], ["src", "sub"]]
 HDRS = ["h.h", "g.h", "k.h"]
 FLAGS = ["F0", "F1", "F2"]
